@@ -14,9 +14,9 @@ P = {
         "name": "routes", "pkg": "./internal/rules", "test": "TestVerifC03",
         "overlay": {"internal/rules/zz_verif_c03_test.go": "c03/c03_test.go"},
         "eval_module": "Run.Eval_C03",
-        # check fx2 fx5 fx6 fx7: the model with (true) / without the repairs of C03-F2 (88da16a), F5 (16cf34b),
-        # F6 (72ba5d4), F7 (a779db8); all four are in /repo now
-        "check_term": "check true true true true",
+        # check fx2 fx3 fx5 fx6 fx7: the model with (true) / without the repairs of C03-F2 (88da16a), F5 (16cf34b),
+        # F6 (72ba5d4), F7 (a779db8) - all four are in /repo now - and the candidate fixes/C03-F3.diff (not applied)
+        "check_term": "check true false true true true",
         "n_quick": 1200, "n_thorough": 30000, "shard": 100,
         "findings": {1: "C03-F1", 3: "C03-F3", 4: "C03-F4", 8: "C03-F8"},
     }],
